@@ -79,7 +79,7 @@ class C20Mgr(MgrBase):
 
     def gen(self, rng, tier):
         k = {"quick": 200, "thorough": 5000, "search": 1200}.get(tier, 200)
-        w = {"unchoke": 6, "choke": 2, "have": 1, "done": 3, "cancel": 1, "kill": 6, "join": 5, "bf": 1, "nint": 1, "tresp": 2}
+        w = {"unchoke": 6, "choke": 2, "have": 1, "done": 3, "cancel": 1, "kill": 6, "join": 5, "bf": 1, "nint": 1, "tresp": 2, "accept": 2}
         cases = []
         for _ in range(k):
             n = rng.choice([1, 2, 2, 3, 11])
